@@ -11,7 +11,7 @@ let seen : (string, unit) Hashtbl.t = Hashtbl.create 4096
 let nres = 6
 let univ = List.init nres n_of_int
 
-(* sd text: R<k>d R<k>p W<k>d W<k>p r<k> w<k> U P T(a,b,...) *)
+(* sd text: R<k>d R<k>p R<k>c W<k>d W<k>p W<k>c r<k> w<k> U P T(a,b,...) *)
 let parse_sd (s : string) : sd =
   let n = String.length s in
   let pos = ref 0 in
@@ -23,7 +23,7 @@ let parse_sd (s : string) : sd =
     | 'P' -> SPhantom
     | 'R' | 'W' ->
         let k = Char.code s.[!pos] - 48 in incr pos;
-        let h = if s.[!pos] = 'd' then HDefault else HPanic in incr pos;
+        let h = (match s.[!pos] with 'd' -> HDefault | 'c' -> HCustom | _ -> HPanic) in incr pos;
         if c = 'R' then SRead (n_of_int k, h) else SWrite (n_of_int k, h)
     | 'r' -> let k = Char.code s.[!pos] - 48 in incr pos; SOptRead (n_of_int k)
     | 'w' -> let k = Char.code s.[!pos] - 48 in incr pos; SOptWrite (n_of_int k)
@@ -125,6 +125,11 @@ let check_line (line : string) : unit =
           if List.mem k present then (if v <> string_of_int (100 + k) then oracle "setup_keeps_existing")
           else if v <> "-" && v <> "0" then oracle "setup_default_value") rv;
       if get "again" <> "1" then oracle "setup_idempotent";
+      (* C06: setup = composition of the members' setups: every user-written handler is called once per member, in
+         member order, on the first and on every repeated setup, whatever the world already holds *)
+      let mc = ids_str (sd_setup_calls d) in
+      if get "calls" <> mc then begin disagree "setup-calls" mc (get "calls"); oracle "setup_composes" end;
+      if get "calls2" <> mc then oracle "setup_composes";
       let key = sd_s in
       if not (Hashtbl.mem seen key) then begin
         Hashtbl.add seen key ();
